@@ -3,7 +3,7 @@
    (MODE=emit; the state is a KEY, the program is built in the action), and validation of the recorded compile / load
    results (MODE=validate): every record is re-derived from its key, the expectation is the specification's, not the
    record's. *)
-EXTENDS SyltShapesFam, Json, IOUtils
+EXTENDS SyltShapesFam2, Json, IOUtils
 
 MCMaxVariants == IF "MAXV" \in DOMAIN IOEnv THEN atoi(IOEnv.MAXV) ELSE 3
 
@@ -16,14 +16,14 @@ Rec == IF Mode = "validate" THEN ndJsonDeserialize(IOEnv.TRACE) ELSE <<>>
 
 (* ---- spec-level sanity of the universes (a failure is a wrong specification: exit 2) *)
 \* every value of every dimension occurs
-ASSUME FlavDimensions ==
+ASSUME FlavDimensions == Mode = "emit" =>
     /\ \A f \in Forms : \A p \in Purities : \A e \in Purities :
           (e = "pu" /\ p = "fn" /\ f \in CalledForms) \/ (f = "var" /\ e = "pu") \/ \E key \in FlavKeys : key[2] = e /\ key[3] = p /\ key[4] = f
     /\ \A l \in LoopCtxs : \A p \in Purities : \E key \in FlavKeys : key[6] = l /\ key[3] = p
     /\ \A w \in Words : \A q \in Positions : \A v \in Variants : \E key \in FlavKeys : key[7] = w /\ key[8] = q /\ key[9] = v
 \* the arm lists: for every enum size there are exact lists, lists with a repeated arm that are still total, and lists
 \* with as many arms as variants of which one is a repeat (so one variant is missing)
-ASSUME ArmClasses ==
+ASSUME ArmClasses == Mode = "emit" =>
     \A n \in 1..MCMaxVariants :
       /\ \E key \in ArmKeys : key[2] = n /\ ArmClass(n, key[3]) = "exact" /\ key[5] = "noelse"
       /\ \E key \in ArmKeys : key[2] = n /\ ArmClass(n, key[3]) = "repeat" /\ key[5] = "noelse"
@@ -31,9 +31,23 @@ ASSUME ArmClasses ==
       /\ \E key \in ArmKeys : key[2] = n /\ ArmClass(n, key[3]) = "unknown" /\ key[5] = "else"
       /\ \A s \in Scruts : \A f \in CaseForms : \A e \in Elses : \E key \in ArmKeys : key[2] = n /\ key[5] = e /\ key[6] = f /\ key[7] = s
 
+\* the families of SyltShapesFam2: every carrier x position x kind of B occurs with B declared after and before A, each with a
+\* legal and an illegal use; every pair of use codes occurs on every link
+ASSUME Fam2Dimensions == Mode = "emit" =>
+    /\ \A c \in OrdCarriers : \A p \in OrdPos : \A t \in OrdTargets : \A o \in (IF OrdNeedsX(p) THEN {"ABX", "XBA"} ELSE {"AB", "BA"}) :
+          \A op \in (IF IsEnumTarget(t) THEN {"case-exact", "case-unknown", "case-missing"} ELSE {"read-known", "read-unknown"}) :
+             <<"ord", c, p, t, o, "param-uncalled", op>> \in OrdKeys
+    /\ \A n \in SeqNodes : \A l \in SeqLinks : \A a \in SeqCodes(n) : \A b \in SeqCodes(n) : IsSeqKeyT(<<"seq", n, l, <<a, b>>>>)
+    /\ Cardinality(LposKeys) = 2 * Cardinality(LposEncl) * Cardinality(LposSites) * 3
+
 (* ---- emit *)
+\* FAMS=<family> restricts emission and the completeness assumption to one family (development aid; the check runs all)
+Fams == IF "FAMS" \in DOMAIN IOEnv THEN IOEnv.FAMS ELSE "all"
+Sel(name, S) == IF Fams \in {"all", name} THEN S ELSE {}
 Init == /\ pc = "start"
-        /\ IF Mode = "emit" THEN (k \in FlavKeys \/ k \in ArmKeys) ELSE k \in 1..Len(Rec)
+        /\ IF Mode = "emit" THEN (k \in Sel("flav", FlavKeys) \/ k \in Sel("arms", ArmKeys) \/ k \in Sel("ord", OrdKeys)
+                                  \/ k \in Sel("lpos", LposKeys) \/ k \in Sel("seq", SeqKeys))
+           ELSE k \in 1..Len(Rec)
 
 \* the two readings of the loop-control universe agree: the rule, evaluated on the program text, accepts exactly the
 \* programs whose function has a loop of its own around the word
@@ -45,16 +59,26 @@ ArmIntent(c) == c.key[1] = "arms" =>
     IN (c.expect = "reject") = (cl \in {"unknown", "unknown+missing", "unknown+repeat", "unknown+missing+repeat"}
                                 \/ (cl \in {"missing", "missing+repeat"} /\ c.key[5] = "noelse"))
 
+\* the families of SyltShapesFam2: a declaration-order case is rejected iff its use is an illegal one, whatever the carrier, the
+\* position, the order and the provenance; a loop-position case is accepted iff LposIntended; a sequence is rejected iff it
+\* contains an illegal use, wherever
+OrdIntent(c) == c.key[1] = "ord" => ((c.expect = "reject") = (c.key[7] \in OrdBadOps))
+LposIntent(c) == c.key[1] = "lpos" => ((c.expect = "accept") = LposIntended(c.key))
+SeqIntent(c) == c.key[1] = "seq" => ((c.expect = "reject") = (\E j \in 1..Len(c.key[4]) : c.key[4][j] \in SeqBadCodes))
+AnyCase(key) == IF IsFam2Key(key) THEN Fam2Case(key) ELSE FamCase(key)
+
 Emit == /\ Mode = "emit" /\ pc = "start" /\ pc' = "done" /\ k' = k
-        /\ LET c == FamCase(k)
-           IN /\ Assert(FlavIntent(c) /\ ArmIntent(c), <<"the rule and the construction of the case disagree", k>>)
+        /\ LET c == AnyCase(k)
+           IN /\ Assert(FlavIntent(c) /\ ArmIntent(c) /\ OrdIntent(c) /\ LposIntent(c) /\ SeqIntent(c),
+                        <<"the rule and the construction of the case disagree", k>>)
               /\ PrintT(<<"REPLAY", ToJson(c)>>)
 
 (* ---- validate: record = [key, id, clause, expect, obs: [class, loads, stage, ..]] *)
 R == Rec[k]
 Validate == /\ Mode = "validate" /\ pc = "start" /\ pc' = "done" /\ k' = k
-            /\ Assert(IsFlavKey(R.key) \/ IsArmKey(R.key), <<"record is not a case of the universe", R.key>>)
-            /\ LET c == FamCase(R.key)
+            /\ Assert(IF IsFam2Key(R.key) THEN IsOrdKey(R.key) \/ IsLposKey(R.key) \/ IsSeqKey(R.key)
+                      ELSE IsFlavKey(R.key) \/ IsArmKey(R.key), <<"record is not a case of the universe", R.key>>)
+            /\ LET c == AnyCase(R.key)
                IN /\ Assert(R.id = c.id /\ R.clause = c.clause /\ R.expect = c.expect,
                             <<"record disagrees with the specification about its case", R.key>>)
                   /\ IF Holds(c.expect, R.obs) THEN TRUE
@@ -65,6 +89,6 @@ Next == Emit \/ Validate
 Spec == Init /\ [][Next]_vars
 
 \* validate mode with FULL=1: the recorded trace covers exactly the universe
-ASSUME TraceComplete == (Mode = "validate" /\ Full) => {Rec[i].key : i \in 1..Len(Rec)} = FlavKeys \cup ArmKeys
+ASSUME TraceComplete == (Mode = "validate" /\ Full) => {Rec[i].key : i \in 1..Len(Rec)} = Sel("flav", FlavKeys) \cup Sel("arms", ArmKeys) \cup Sel("ord", OrdKeys) \cup Sel("lpos", LposKeys) \cup Sel("seq", SeqKeys)
 TypeOk == pc \in {"start", "done"}
 =============================================================================
